@@ -1387,10 +1387,14 @@ def c04_oracles():
                budget={"quick": 330, "thorough": 6000},
                what="T.apply(X, elementwise|pairwise|pairwise_reversed) for all 11 object kinds (real; complex for projective classes): type, composite shape law, "
                     "and result[idx] (primary and derived data) = transformation unit applied to object unit; pairwise entry [i][j] = transformation j on unit i"),
-        Clause("vectorised_per_unit", "oracle", gen_construct, run_construct, judge_bad, site="hyperbolic.Segment/Polygon/TangentVector/circle_parameters/_fixpoint_data, lie.sl2_*",
+        Clause("vectorised_per_unit", "oracle", gen_construct, run_construct, judge_bad, site="hyperbolic.Segment/Polygon/TangentVector/Hyperplane/circle_parameters/sphere_parameters/fixed points, lie.sl2_*",
                budget={"quick": 240, "thorough": 4000},
                what="Segment/PointPair/Polygon/TangentVector construction, ideal endpoints, normalized/angle/origin_to/point_along, circle_parameters (segment, geodesic, polygon; "
-                    "Poincare and half-space), horosphere sphere_parameters, fixed points/axis, vectorised sl2 maps: composite = per-unit loop"),
+                    "Poincare and half-space), horosphere sphere_parameters, fixed points/axis, vectorised sl2 maps: composite = per-unit loop; "
+                    "mixed_kinds: composites of geodesics / segments / subspaces / horospheres / points mixing ordinary members with one exactly through the half-space point at "
+                    "infinity and one exactly through the centre of the ball, sphere/circle parameters, ideal-basis, endpoint and point coordinates in BOTH models, member = single object "
+                    "(finite exactly where the single answer is finite); hyperplane_family: Hyperplane(normals_only) / from_reflection (objects and matrices) / Geodesic.from_reflection / "
+                    "reflection_across / copies, and their queries, per unit; every op also on composites whose last axis has exactly dim+1 members and on square (m,m) tables"),
         Clause("structure_units", "oracle", gen_struct, run_struct, judge_bad, site="projective.ProjectiveObject.flatten_to_unit/reshape/__getitem__/__len__/_construct_from_object",
                budget={"quick": 220, "thorough": 4000},
                what="flatten_to_unit, reshape, len, iteration, integer/tuple indexing, stacking Cls([items]) preserve units (primary and derived data) and row-major order, all 11 kinds"),
